@@ -45,6 +45,17 @@ use crate::api::{
     PROC_SELF_FD_CSTR, SLASH_ASCII, VFS_MAX_INO,
 };
 
+#[cfg(fuse_backend_rs_verif)]
+macro_rules! verif_yield {
+    ($l:expr) => {
+        crate::passthrough::verif_hooks::yield_point($l)
+    };
+}
+#[cfg(not(fuse_backend_rs_verif))]
+macro_rules! verif_yield {
+    ($l:expr) => {};
+}
+
 #[cfg(feature = "async-io")]
 mod async_io;
 mod config;
@@ -56,6 +67,8 @@ mod overlay;
 mod statx;
 mod sync_io;
 mod util;
+#[cfg(fuse_backend_rs_verif)]
+pub mod verif_hooks;
 
 type Inode = u64;
 type Handle = u64;
@@ -678,10 +691,12 @@ impl<S: BitmapSlice + Send + Sync> PassthroughFs<S> {
 
         let mut found = None;
         'search: loop {
+            verif_yield!("L_probe");
             match self.inode_map.get_alt(&id, handle_opt.as_ref()) {
                 // No existing entry found
                 None => break 'search,
                 Some(data) => {
+                    verif_yield!("L_load");
                     let curr = data.refcount.load(Ordering::Acquire);
                     // forgot_one() has just destroyed the entry, retry...
                     if curr == 0 {
@@ -691,6 +706,7 @@ impl<S: BitmapSlice + Send + Sync> PassthroughFs<S> {
                     // Saturating add to avoid integer overflow, it's not realistic to saturate u64.
                     let new = curr.saturating_add(1);
 
+                    verif_yield!("L_cas");
                     // Synchronizes with the forgot_one()
                     if data
                         .refcount
@@ -713,8 +729,10 @@ impl<S: BitmapSlice + Send + Sync> PassthroughFs<S> {
                 InodeHandle::File(path_fd)
             };
 
+            verif_yield!("L_wlock");
             // Write guard get_alt_locked() and insert_lock() to avoid race conditions.
             let mut inodes = self.inode_map.get_map_mut();
+            verif_yield!("L_locked");
 
             // Lookup inode_map again after acquiring the inode_map lock, as there might be another
             // racing thread already added an inode with the same id while we're not holding
@@ -786,12 +804,14 @@ impl<S: BitmapSlice + Send + Sync> PassthroughFs<S> {
             // reference to the inode data and is in the process of updating the refcount so we need
             // to loop here until we can decrement successfully.
             loop {
+                verif_yield!("F_load");
                 let curr = data.refcount.load(Ordering::Acquire);
 
                 // Saturating sub because it doesn't make sense for a refcount to go below zero and
                 // we don't want misbehaving clients to cause integer overflow.
                 let new = curr.saturating_sub(count);
 
+                verif_yield!("F_cas");
                 // Synchronizes with the acquire load in `do_lookup`.
                 if data
                     .refcount
@@ -799,6 +819,7 @@ impl<S: BitmapSlice + Send + Sync> PassthroughFs<S> {
                     .is_ok()
                 {
                     if new == 0 {
+                        verif_yield!("F_rm");
                         // We just removed the last refcount for this inode.
                         // The allocated inode number should be kept in the map when use_host_ino
                         // is false or host inode(don't use the virtual 56bit inode) is bigger than MAX_HOST_INO.
@@ -1006,6 +1027,28 @@ fn drop_cap_fsetid() -> io::Result<Option<CapFsetid>> {
         )
     })?;
     Ok(Some(CapFsetid {}))
+}
+
+#[cfg(fuse_backend_rs_verif)]
+impl<S: BitmapSlice + Send + Sync> PassthroughFs<S> {
+    /// Verification hook: sizes of the inode, handle and directory-cookie tables.
+    pub fn verif_table_sizes(&self) -> (usize, usize, usize) {
+        (
+            self.inode_map.inodes.read().unwrap().verif_len(),
+            self.handle_map.handles.read().unwrap().len(),
+            self.handle_map.cookies.lock().unwrap().len(),
+        )
+    }
+
+    /// Verification hook: current lookup reference count of `inode`, if it is in the table.
+    pub fn verif_refcount(&self, inode: Inode) -> Option<u64> {
+        self.inode_map
+            .inodes
+            .read()
+            .unwrap()
+            .get(&inode)
+            .map(|d| d.refcount.load(Ordering::Acquire))
+    }
 }
 
 #[cfg(test)]
